@@ -14,7 +14,9 @@
     so the *sequence of PRNG calls* made by the code is part of the correspondence.
   * primitives: mutators Uniform / Swap (mutators.py), selectors Random / Sample / Top / Bottom /
     First / Last (selectors.py), recombinators Uniform / Sample (point-wise), KPoint / Segmented
-    (segment-wise), Order (permutation) (recombinators.py).
+    (segment-wise) (recombinators.py). The permutation crossovers, Average / WeightedAverage,
+    Proportional and NSGA2 sorting are not modelled (oracle-only in the harness); `Ev.order` /
+    `setOrder` are the hook for `list(set(children))` of the permutation crossovers.
   * the composition algebra (base.py:293-441, 839-1480) is the inductive `OpExpr` with
     `eval : OpExpr → Pop → M Pop`.
 -/
